@@ -7,7 +7,7 @@ LABEL_KINDS_QUICK = ['none', 'int']
 LABEL_KINDS_ALL = ['none', 'int', 'long', 'dbl', 'chr', 'str', 'pt']
 
 
-def history(rng, cls, lk, maxops=30, force_p=0.0, reject_p=0.04, dd_p=0.0, setlabel=True, sizes=(0, 1, 1, 2, 3, 3, 4, 5), reject_force_p=0.0, query_p=0.0):
+def history(rng, cls, lk, maxops=30, force_p=0.0, reject_p=0.04, dd_p=0.0, setlabel=True, sizes=(0, 1, 1, 2, 3, 3, 4, 5), reject_force_p=0.0, query_p=0.0, slb_force_p=0.0):
     undirected = cls.startswith('U')
     n = rng.choice(sizes)
     cur = n
@@ -63,7 +63,7 @@ def history(rng, cls, lk, maxops=30, force_p=0.0, reject_p=0.04, dd_p=0.0, setla
         elif r < 0.84:
             cur += rng.randint(0, 2); ops.append('RZ %d' % cur)
         elif r < 0.94 and lk != 'none' and setlabel:
-            ops.append('SLB %d %d %d 0' % (i, j, l))
+            ops.append('SLB %d %d %d %d' % (i, j, l, 1 if rng.random() < slb_force_p else 0))      # force=true may leave an orphan label (documented); later unforced calls on the pair must still be rejected
         elif dd_p and rng.random() < dd_p * 4:
             ops.append('DD')
         else:
@@ -121,6 +121,7 @@ def coq_uop(op):
     raise ValueError(op)
 
 def coq_term_history(case, variant='repaired'):
+    if '~' in case: return None
     head, body = case.split(':', 1)
     cls, lk, n = head.split()
     ops = [o.strip() for o in body.split(';') if o.strip()]
@@ -254,6 +255,7 @@ def coq_wop(op):
     return {'SL': 'WSelfLoops', 'CL': 'WClear', 'DD': 'WRemoveDuplicates'}.get(k) or ('WRemoveVertex %s' % t[1] if k == 'V' else 'WResize %s' % t[1])
 
 def coq_term_mw(case):
+    if '~' in case: return None
     head, body = case.split(':', 1)
     cls, lk, n = head.split()
     ops = [o.strip() for o in body.split(';') if o.strip()]
@@ -303,7 +305,7 @@ def _construct(rng, cls, n, target):
     ops = []
     add = lambda i, j, v: ('MA %d %d %d 0' % (i, j, v)) if multi else ('WA %d %d %d 0' % (i, j, v)) if weighted else ('A %d %d %d 0' % (i, j, v))
     orient = lambda i, j: (j, i) if und and rng.random() < 0.5 else (i, j)
-    junkval = lambda: rng.randint(1, 3) if multi else rng.choice([-3, 1, 5]) if weighted else rng.randint(0, 3)
+    junkval = lambda: rng.randint(1, 3) if multi else rng.choice([-3, 1, 5, 0, 0]) if weighted else rng.randint(0, 3)      # weight 0: 'no weight' and 'weight zero' must not be confused
     if n > 0 and rng.random() < 0.6:                       # junk first, then wipe it: the past must not matter
         for _ in range(rng.randint(1, 4)):
             i, j = rng.randrange(n), rng.randrange(n); ops.append(add(*orient(i, j), junkval()))
@@ -476,3 +478,63 @@ def exhaustive_histories(cls, lk, n, depth, rich):
         alpha = ['WA %d %d %d 0' % (i, j, w) for i, j in pairs for w in ((4, -2) if rich else (4,))] + ['R %d %d' % p for p in pairs] + ['V %d' % v for v in range(n)] + ['SL', 'CL']
         if rich: alpha += ['WS %d %d %d' % (i, j, w) for i, j in pairs for w in (0, 6)]
     return ['%s %s %d : %s' % (cls, lk, n, ' ; '.join(h)) for h in itertools.product(alpha, repeat=depth)]
+
+
+# ---- large scopes: many vertices / many copies / huge counters, built with SILENT steps ("~op": applied on both sides, only the way the
+# call ended is compared) and then observed in full for a few calls.  Aimed at code whose behaviour changes with size: small-buffer or
+# bitmap optimisations (32 / 64 / 256 boundaries), hubs, counters that wrap ----
+def big_history(rng, cls, lk):
+    und = cls.startswith('U')
+    n = rng.choice([33, 34, 40, 41, 65, 66, 70])
+    lab = (lambda: rng.randint(0, 3)) if lk != 'none' else (lambda: 0)
+    ops = []
+    hub = rng.choice([0, n - 1, rng.randrange(n)])
+    deg = rng.choice([31, 32, 33, 34, min(n - 1, 40)])
+    nbrs = rng.sample([v for v in range(n)], min(deg, n))
+    for j in nbrs: ops.append('~A %d %d %d 0' % (((hub, j) if (not und or rng.random() < 0.5) else (j, hub)) + (lab(),)))
+    # pairs whose indices differ by 32 / 64 around another vertex
+    v = rng.randrange(n); base = rng.randrange(0, max(1, min(31, n - 32)))
+    for j in (base, base + 32) + ((base + 64,) if base + 64 < n else ()):
+        ops.append('~A %d %d %d 0' % (v, j, lab()))
+    if rng.random() < 0.5: ops.append('~A %d %d %d 0' % (v, v, lab()))
+    for _ in range(rng.randint(0, 6)): ops.append('~A %d %d %d 0' % (rng.randrange(n), rng.randrange(n), lab()))
+    # observed calls
+    def pair():
+        r = rng.random()
+        if r < 0.4: return (hub, rng.choice(nbrs))
+        if r < 0.6: return (rng.choice(nbrs), hub)
+        if r < 0.8: return (v, rng.choice([base, base + 32]))
+        return (rng.randrange(n), rng.randrange(n))
+    for _ in range(rng.randint(3, 6)):
+        r = rng.random(); i, j = pair()
+        if r < 0.35: ops.append('A %d %d %d 0' % (i, j, lab()))
+        elif r < 0.5: ops.append('R %d %d' % (i, j))
+        elif r < 0.65: ops.append('DD')
+        elif r < 0.75: ops.append('V %d' % rng.choice([hub, v, i]))
+        elif r < 0.85: ops.append('SL')
+        elif cls == 'D' and r < 0.92: ops.append('AR %d %d %d 0' % (i, j, lab()))
+        else: ops.append('SLB %d %d %d 0' % (i, j, lab()))
+    return '%s %s %d : %s' % (cls, lk, n, ' ; '.join(ops))
+
+def many_copies_history(rng, cls, lk):
+    """one pair (and one loop) forced hundreds of times, then removeDuplicateEdges / removeEdge observed"""
+    und = cls.startswith('U'); n = rng.randint(2, 4)
+    a, b = rng.sample(range(n), 2); c = rng.randrange(n)
+    k1 = rng.choice([255, 256, 257, 258, 300, 513]); k2 = rng.choice([2, 255, 256, 257, 300])
+    ops = ['~A %d %d 1 1' % ((a, b) if (not und or t % 2 == 0) else (b, a)) for t in range(k1)]
+    ops += ['~A %d %d 2 1' % (c, c) for _ in range(k2)]
+    ops += ['A %d %d 3 1' % (a, b), rng.choice(['DD', 'DD', 'R %d %d' % (a, b)]), 'A %d %d 1 0' % (a, b), 'DD', 'R %d %d' % (c, c)]
+    return '%s %s %d : %s' % (cls, lk, n, ' ; '.join(ops))
+
+HUGE = [2147483647, 2147483648, 2147483649, 3000000000, 4000000000]      # the stored 32-bit multiplicity itself must not wrap (capacity of the type, outside the property): small additions only
+def huge_multiplicity_history(rng, cls):
+    n = rng.randint(2, 4); ops = []
+    for _ in range(rng.randint(4, 12)):
+        i, j = rng.randrange(n), rng.randrange(n); r = rng.random()
+        k = rng.choice(HUGE + [1, 2, 5])
+        if r < 0.3: ops.append('MA %d %d %d 0' % (i, j, rng.choice([1, 2, 5])))       # additions stay small: the 32-bit multiplicity itself must not wrap
+        elif r < 0.65: ops.append('MS %d %d %d' % (i, j, k))
+        elif r < 0.85: ops.append('MR %d %d %d' % (i, j, rng.choice(HUGE + [1, 3])))
+        elif r < 0.92: ops.append('V %d' % i)
+        else: ops.append('SL')
+    return '%s mult %d : %s' % (cls, n, ' ; '.join(ops))
